@@ -61,7 +61,9 @@ pub fn generate(ctx: &mut Ctx) {
     for i in 0..n {
         let mut rng = ctx.rng("res", i);
         let mut o = gen::Opts::new(rng.chance(1, 2));
-        o.max_segs = 10;
+        o.max_segs = if rng.chance(1, 6) { 40 } else { 10 };
+        o.long = rng.chance(1, 6);
+        o.bad_pct = rng.chance(1, 6);
         let base = if rng.chance(1, 3) { rng.pick(BASES).to_string() } else { gen::full(&mut rng, o) };
         let reference = match rng.below(10) {
             0 => rng.pick(REFS).to_string(),
